@@ -13,29 +13,6 @@ open SL.ISort (StrictTotal)
 section
 variable {φ κ : Type}
 
-/-! ### the one request class on which mechanism and reference still differ -/
-
-def DInterval.isFixed : DInterval → Bool
-  | .fixed _ => true
-  | .calendar _ => false
-
-/-- every node except a date_histogram that combines a calendar interval, a non-zero offset and
-(extended or hard) bounds: there the bounds fill of the code drops the offset after its first
-step (open finding `date_histogram.calendar-offset-fill`) -/
-def BSpec.safe : BSpec φ κ → Bool
-  | .dhist _ iv offset _ ext hard _ ideal =>
-    ideal || decide (offset = 0) || iv.isFixed || (ext.or hard).isNone
-  | _ => true
-
-mutual
-def Agg.safe : Agg φ κ → Bool
-  | .bucket b subs => b.safe && subs.safe
-  | _ => true
-def Aggs.safe : Aggs φ κ → Bool
-  | .nil => true
-  | .cons a r => a.safe && r.safe
-end
-
 /-- the doc-count floor of `finish()` (rare_terms keeps `doc_count > 0`; nothing else filters) -/
 def BSpec.minOf : BSpec φ κ → Nat
   | .rare _ _ _ => 1
@@ -43,11 +20,6 @@ def BSpec.minOf : BSpec φ κ → Nat
 
 theorem BSpec.minOf_le (b : BSpec φ κ) : b.minOf ≤ 1 := by
   cases b <;> simp [BSpec.minOf]
-
-theorem fillFrom_congr (n1 n2 : Int → Int) (hn : ∀ x, n1 x = n2 x) (cur hi : Int) (fuel : Nat) :
-    fillFrom n1 cur hi fuel = fillFrom n2 cur hi fuel := by
-  have : n1 = n2 := funext hn
-  rw [this]
 
 variable [KOrd κ] [DecidableEq κ]
 set_option linter.unusedSectionVars false
@@ -59,7 +31,7 @@ theorem finishSeg_eq (b : BSpec φ κ) (bs : Buckets κ) :
   | terms _ _ _ _ => simp only [finishSeg, BSpec.minOf]; exact (filter_keepMin_zero bs).symm
   | range _ _ _ => simp only [finishSeg, BSpec.minOf]; exact (filter_keepMin_zero bs).symm
   | hist _ _ _ _ _ _ _ => simp only [finishSeg, BSpec.minOf]; exact (filter_keepMin_zero bs).symm
-  | dhist _ _ _ _ _ _ _ _ => simp only [finishSeg, BSpec.minOf]; exact (filter_keepMin_zero bs).symm
+  | dhist _ _ _ _ _ _ _ => simp only [finishSeg, BSpec.minOf]; exact (filter_keepMin_zero bs).symm
   | filter _ => simp only [finishSeg, BSpec.minOf]; exact (filter_keepMin_zero bs).symm
   | composite _ _ _ => simp only [finishSeg, BSpec.minOf]; exact (filter_keepMin_zero bs).symm
 
@@ -145,48 +117,6 @@ theorem rawBuckets_congr (b : BSpec φ κ) (C C' : List (Doc φ κ) → List (No
   have : C = C' := funext h
   rw [this]
 
-theorem rawBuckets_congr_spec (b b' : BSpec φ κ) (hk : keysOf b = keysOf b')
-    (he : extraKeys b = extraKeys b') (hg : eager b = eager b')
-    (C : List (Doc φ κ) → List (Node κ)) (docs : List (Doc φ κ)) :
-    rawBuckets b C docs = rawBuckets b' C docs := by
-  unfold rawBuckets bucketOf inB
-  rw [hk, he, hg]
-
-/-- on a safe request the reference reads the same buckets as the mechanism -/
-theorem rawBuckets_ideal {b : BSpec φ κ} (hs : b.safe = true)
-    (C : List (Doc φ κ) → List (Node κ)) (docs : List (Doc φ κ)) :
-    rawBuckets b.ideal C docs = rawBuckets b C docs := by
-  cases b with
-  | dhist f iv o m e h mi a =>
-    simp only [BSpec.safe, Bool.or_eq_true, decide_eq_true_eq] at hs
-    apply rawBuckets_congr_spec
-    · rfl
-    · simp only [extraKeys, BSpec.ideal]
-      cases hb : e.or h with
-      | none => rfl
-      | some lh =>
-        obtain ⟨lo, hi⟩ := lh
-        simp only
-        split
-        · congr 1
-          apply fillFrom_congr
-          intro x
-          rcases hs with ((ha | ho) | hf) | hn
-          · subst ha; rfl
-          · subst ho; cases a <;> simp [fillStep]
-          · cases iv with
-            | fixed step => cases a <;> simp [fillStep, addInterval] <;> omega
-            | calendar u => simp [DInterval.isFixed] at hf
-          · rw [hb] at hn; simp at hn
-        · rfl
-    · rfl
-  | terms _ _ _ _ => rfl
-  | rare _ _ _ => rfl
-  | range _ _ _ => rfl
-  | hist _ _ _ _ _ _ _ => rfl
-  | filter _ => rfl
-  | composite _ _ _ => rfl
-
 /-! ### presentation commutes with a map on the children -/
 
 theorem termsLt_onChildren (g : List (Node κ) → List (Node κ)) (x y : Key κ × Nat × List (Node κ)) :
@@ -230,7 +160,7 @@ theorem finalPost_map (b : BSpec φ κ) (g : List (Node κ) → List (Node κ)) 
   | hist _ _ _ _ _ _ _ =>
     simp only [finalPost]
     rw [filter_onChildren g _ (fun _ => rfl)]
-  | dhist _ _ _ _ _ _ _ _ =>
+  | dhist _ _ _ _ _ _ _ =>
     simp only [finalPost]
     rw [filter_onChildren g _ (fun _ => rfl)]
   | range _ _ _ => simp [finalPost]
